@@ -75,6 +75,8 @@ func main() {
 		fmt.Println(viol)
 	case "c04child":
 		c04Child()
+	case "c12fresh":
+		c12FreshChild()
 	default:
 		os.Exit(2)
 	}
